@@ -128,6 +128,11 @@ let () =
            st := o.M.o_st;
            let w = M.wire !st cid o.M.o_reply in
            print_string ("R " ^ (if o.M.o_block then "1 " else "0 ") ^ sx w ^ "\n")
+       | ["CONN"; cid] ->
+           (* what the model's session of this connection holds: database, protocol, name, queued commands or - *)
+           let c = M.get_conn !st (n_of_int (int_of_string cid)) in
+           print_string (Printf.sprintf "CONN %d %s %s %s\n" (int_of_n c.M.c_sel) (z_to_string c.M.c_resp) (hex_of_bytes c.M.c_name)
+             (match c.M.c_queue with None -> "-" | Some q -> string_of_int (List.length q)))
        | ["CLOSE"; cid] -> st := M.close_conn !st (n_of_int (int_of_string cid)); print_string "OK\n"
        | ["RESET"] -> st := M.state0; print_string "OK\n"
        | ["SNAP"; n] -> Hashtbl.replace snaps (int_of_string n) !st; print_string "OK\n"
